@@ -355,30 +355,30 @@ theorem exec_prepareCall_clo (f : Nat) (x : String) (rest : Option String) (nfix
 /-! ## The outcome "the activation returned" -/
 
 /-- what `FClaimU` says of a whole call of the activation entered from `s₁`, seen from a state inside it -/
-def RetOut (s₁ : St) (env : Nat) (D : List (Option Val)) (m : Nat → Nat) (s : St) (rs : Ref.St) (v' : Val) (rs' : Ref.St) :
+def RetOut (s₁ : St) (env : Nat) (D : List (Option Val)) (f₀ : Nat) (m : Nat → Nat) (s : St) (rs : Ref.St) (v' : Val) (rs' : Ref.St) :
     Prop :=
   ∃ (s' : St) (m' : Nat → Nat) (v : Val), ReachX s s' ∧ s'.pc = s₁.pc + 1 ∧ s'.data = some v :: D ∧ v' = trf m' v
-    ∧ RelF m' s' rs' env ∧ MExt s m m' ∧ RExt rs rs' ∧ FrameF s₁ s' ∧ VOk m' s' rs' v
+    ∧ RelF m' (s'.withCur f₀) rs' env ∧ MExt s m m' ∧ RExt rs rs' ∧ FrameF s₁ s' ∧ VOk m' s' rs' v
 
-theorem RetOut.of_reach {s₁ : St} {env : Nat} {D : List (Option Val)} {m m₂ : Nat → Nat} {s s₂ : St} {rs rs₂ rs' : Ref.St}
+theorem RetOut.of_reach {s₁ : St} {env : Nat} {D : List (Option Val)} {f₀ : Nat} {m m₂ : Nat → Nat} {s s₂ : St} {rs rs₂ rs' : Ref.St}
     {v' : Val} (hr : ReachX s s₂) (hm : MExt s m m₂) (hfl : s.fns.length ≤ s₂.fns.length) (hext : RExt rs rs₂)
-    (h : RetOut s₁ env D m₂ s₂ rs₂ v' rs') : RetOut s₁ env D m s rs v' rs' := by
+    (h : RetOut s₁ env D f₀ m₂ s₂ rs₂ v' rs') : RetOut s₁ env D f₀ m s rs v' rs' := by
   obtain ⟨s', m', v, r, hpc, hd, hv, rel, hm', ext, fr, hcl⟩ := h
   exact ⟨s', m', v, hr.trans r, hpc, hd, hv, rel, hm.trans hm' hfl, hext.trans ext, fr, hcl⟩
 
 /-- as `SimF`; a value may also be delivered by the return of the whole activation -/
-def SimT (code : List Instr) (s₁ : St) (env : Nat) (D : List (Option Val)) (m : Nat → Nat) (s : St) (rs : Ref.St)
+def SimT (code : List Instr) (s₁ : St) (env : Nat) (D : List (Option Val)) (f₀ : Nat) (m : Nat → Nat) (s : St) (rs : Ref.St)
     (cenv : Nat) (res : Ref.R Val) : Prop :=
   match res with
   | .ok v' rs' => (∃ s' m' v, ReachX s s' ∧ Lands code.length v s s' ∧ v' = trf m' v ∧ RelF m' s' rs' cenv
-      ∧ MExt s m m' ∧ RExt rs rs' ∧ FrameF s s' ∧ VOk m' s' rs' v) ∨ RetOut s₁ env D m s rs v' rs'
+      ∧ MExt s m m' ∧ RExt rs rs' ∧ FrameF s s' ∧ VOk m' s' rs' v) ∨ RetOut s₁ env D f₀ m s rs v' rs'
   | .err rs' => FailsX s rs'.trace
   | .timeout => True
   | .brk _ _ => False
   | .cont _ _ => False
 
-theorem SimF.toT {code : List Instr} {s₁ : St} {env : Nat} {D : List (Option Val)} {m : Nat → Nat} {s : St} {rs : Ref.St}
-    {cenv : Nat} {res : Ref.R Val} (h : SimF code m s rs cenv res) : SimT code s₁ env D m s rs cenv res := by
+theorem SimF.toT {code : List Instr} {s₁ : St} {env : Nat} {D : List (Option Val)} {f₀ : Nat} {m : Nat → Nat} {s : St} {rs : Ref.St}
+    {cenv : Nat} {res : Ref.R Val} (h : SimF code m s rs cenv res) : SimT code s₁ env D f₀ m s rs cenv res := by
   cases res with
   | ok v rs' => exact Or.inl h
   | err rs' => exact h
@@ -386,10 +386,10 @@ theorem SimF.toT {code : List Instr} {s₁ : St} {env : Nat} {D : List (Option V
   | brk l rs' => exact h
   | cont l rs' => exact h
 
-theorem SimT.seq {code c₂ : List Instr} {s₁ : St} {env : Nat} {D : List (Option Val)} {m m₁ : Nat → Nat} {s s₁' : St}
+theorem SimT.seq {code c₂ : List Instr} {s₁ : St} {env : Nat} {D : List (Option Val)} {f₀ : Nat} {m m₁ : Nat → Nat} {s s₁' : St}
     {rs rs₁ : Ref.St} {cenv k : Nat} {res : Ref.R Val} (hreach : ReachX s s₁') (hmoved : Moved k s s₁') (hm : MExt s m m₁)
-    (hext : RExt rs rs₁) (hframe : FrameF s s₁') (h₂ : SimT c₂ s₁ env D m₁ s₁' rs₁ cenv res) (hk : k + c₂.length = code.length) :
-    SimT code s₁ env D m s rs cenv res := by
+    (hext : RExt rs rs₁) (hframe : FrameF s s₁') (h₂ : SimT c₂ s₁ env D f₀ m₁ s₁' rs₁ cenv res) (hk : k + c₂.length = code.length) :
+    SimT code s₁ env D f₀ m s rs cenv res := by
   cases res with
   | ok v rs' =>
     rcases h₂ with h | h
@@ -400,12 +400,12 @@ theorem SimT.seq {code c₂ : List Instr} {s₁ : St} {env : Nat} {D : List (Opt
   | brk l rs' => exact h₂
   | cont l rs' => exact h₂
 
-theorem SimT.cond_exit {p b rest pre post : List Instr} {s₁ : St} {env : Nat} {D : List (Option Val)} {m m₁ : Nat → Nat}
+theorem SimT.cond_exit {p b rest pre post : List Instr} {s₁ : St} {env : Nat} {D : List (Option Val)} {f₀ : Nat} {m m₁ : Nat → Nat}
     {s s₁' : St} {rs rs₁ : Ref.St} {cenv : Nat} {res : Ref.R Val}
     (h : Seg s pre (p ++ [.branch false (b.length + 2)] ++ b ++ [.jump (rest.length + 1)] ++ rest) post)
     (hreach : ReachX s s₁') (hmoved : Moved (p.length + 1) s s₁') (hm : MExt s m m₁) (hext : RExt rs rs₁)
-    (hframe : FrameF s s₁') (h₂ : SimT b s₁ env D m₁ s₁' rs₁ cenv res) :
-    SimT (p ++ [.branch false (b.length + 2)] ++ b ++ [.jump (rest.length + 1)] ++ rest) s₁ env D m s rs cenv res := by
+    (hframe : FrameF s s₁') (h₂ : SimT b s₁ env D f₀ m₁ s₁' rs₁ cenv res) :
+    SimT (p ++ [.branch false (b.length + 2)] ++ b ++ [.jump (rest.length + 1)] ++ rest) s₁ env D f₀ m s rs cenv res := by
   cases res with
   | ok v rs' =>
     rcases h₂ with h' | h'
@@ -416,11 +416,11 @@ theorem SimT.cond_exit {p b rest pre post : List Instr} {s₁ : St} {env : Nat} 
   | brk l rs' => exact h₂
   | cont l rs' => exact h₂
 
-theorem SimT.scoped {inner pre post : List Instr} {s₁ : St} {env : Nat} {D : List (Option Val)} {m : Nat → Nat} {s : St}
+theorem SimT.scoped {inner pre post : List Instr} {s₁ : St} {env : Nat} {D : List (Option Val)} {f₀ : Nat} {m : Nat → Nat} {s : St}
     {rs : Ref.St} {cenv : Nat} {res : Ref.R Val} (h : Seg s pre ([.addScope] ++ inner ++ [.removeScope]) post)
     (hrel : RelF m s rs cenv)
-    (hin : SimT inner s₁ env D m s.pushScope (Ref.newFrame rs cenv).2 rs.frames.length res) :
-    SimT ([.addScope] ++ inner ++ [.removeScope]) s₁ env D m s rs cenv res := by
+    (hin : SimT inner s₁ env D f₀ m s.pushScope (Ref.newFrame rs cenv).2 rs.frames.length res) :
+    SimT ([.addScope] ++ inner ++ [.removeScope]) s₁ env D f₀ m s rs cenv res := by
   have hr1 := (glue_addScope h).1
   cases res with
   | ok v rs3 =>
@@ -436,9 +436,9 @@ theorem SimT.scoped {inner pre post : List Instr} {s₁ : St} {env : Nat} {D : L
 
 /-- the state `s` is inside the activation of closure object `vid` entered from `s₁` (arguments popped,
 `D` below them): what is needed to re-enter the function from a tail position, `sc` block scopes open -/
-structure InAct (m₁ : Nat → Nat) (s₁ : St) (rs₁ : Ref.St) (env vid : Nat) (D : List (Option Val)) (sc : Nat)
+structure InAct (m₁ : Nat → Nat) (s₁ : St) (rs₁ : Ref.St) (env vid : Nat) (D : List (Option Val)) (f₀ : Nat) (sc : Nat)
     (m : Nat → Nat) (s : St) (rs : Ref.St) : Prop where
-  rel₁ : RelF m₁ s₁ rs₁ env
+  rel₁ : RelF m₁ (s₁.withCur f₀) rs₁ env
   good : GoodFn m₁ s₁ rs₁ vid
   cur : s.curfunc = vid
   addr : s.addr = some (s₁.curfunc, s₁.pc + 1) :: s₁.addr
@@ -454,9 +454,9 @@ structure InAct (m₁ : Nat → Nat) (s₁ : St) (rs₁ : Ref.St) (env vid : Nat
   mext : MExt s₁ m₁ m
   rext : RExt rs₁ rs
 
-theorem InAct.after {m₁ : Nat → Nat} {s₁ : St} {rs₁ : Ref.St} {env vid : Nat} {D : List (Option Val)} {sc : Nat}
-    {m m' : Nat → Nat} {s s' : St} {rs rs' : Ref.St} (h : InAct m₁ s₁ rs₁ env vid D sc m s rs) (fr : FrameF s s')
-    (hd : s'.data = s.data) (hm : MExt s m m') (ext : RExt rs rs') : InAct m₁ s₁ rs₁ env vid D sc m' s' rs' :=
+theorem InAct.after {m₁ : Nat → Nat} {s₁ : St} {rs₁ : Ref.St} {env vid : Nat} {D : List (Option Val)} {f₀ : Nat} {sc : Nat}
+    {m m' : Nat → Nat} {s s' : St} {rs rs' : Ref.St} (h : InAct m₁ s₁ rs₁ env vid D f₀ sc m s rs) (fr : FrameF s s')
+    (hd : s'.data = s.data) (hm : MExt s m m') (ext : RExt rs rs') : InAct m₁ s₁ rs₁ env vid D f₀ sc m' s' rs' :=
   ⟨h.rel₁, h.good, by rw [fr.curfunc]; exact h.cur, by rw [fr.addr]; exact h.addr, by rw [fr.susp]; exact h.susp,
     by rw [hd]; exact h.data, by rw [fr.linear]; exact h.lin, Nat.le_trans h.fnsLen fr.fnsLen,
     fun id hid => (fr.fns id (Nat.lt_of_lt_of_le hid h.fnsLen)).trans (h.fns id hid),
@@ -466,14 +466,14 @@ theorem InAct.after {m₁ : Nat → Nat} {s₁ : St} {rs₁ : Ref.St} {env vid :
     fun i hi => (fr.flags i (Nat.lt_of_lt_of_le hi h.scLen)).trans (h.flags i hi),
     h.mext.trans hm h.fnsLen, h.rext.trans ext⟩
 
-theorem InAct.moved {m₁ : Nat → Nat} {s₁ : St} {rs₁ : Ref.St} {env vid : Nat} {D : List (Option Val)} {sc k : Nat}
-    {m m' : Nat → Nat} {s s' : St} {rs rs' : Ref.St} (h : InAct m₁ s₁ rs₁ env vid D sc m s rs) (mv : Moved k s s')
-    (fr : FrameF s s') (hm : MExt s m m') (ext : RExt rs rs') : InAct m₁ s₁ rs₁ env vid D sc m' s' rs' :=
+theorem InAct.moved {m₁ : Nat → Nat} {s₁ : St} {rs₁ : Ref.St} {env vid : Nat} {D : List (Option Val)} {f₀ : Nat} {sc k : Nat}
+    {m m' : Nat → Nat} {s s' : St} {rs rs' : Ref.St} (h : InAct m₁ s₁ rs₁ env vid D f₀ sc m s rs) (mv : Moved k s s')
+    (fr : FrameF s s') (hm : MExt s m m') (ext : RExt rs rs') : InAct m₁ s₁ rs₁ env vid D f₀ sc m' s' rs' :=
   h.after fr mv.data hm ext
 
-theorem InAct.pushScope {m₁ : Nat → Nat} {s₁ : St} {rs₁ : Ref.St} {env vid : Nat} {D : List (Option Val)} {sc : Nat}
-    {m : Nat → Nat} {s : St} {rs : Ref.St} (h : InAct m₁ s₁ rs₁ env vid D sc m s rs) (cenv : Nat) :
-    InAct m₁ s₁ rs₁ env vid D (sc + 1) m s.pushScope (Ref.newFrame rs cenv).2 := by
+theorem InAct.pushScope {m₁ : Nat → Nat} {s₁ : St} {rs₁ : Ref.St} {env vid : Nat} {D : List (Option Val)} {f₀ : Nat} {sc : Nat}
+    {m : Nat → Nat} {s : St} {rs : Ref.St} (h : InAct m₁ s₁ rs₁ env vid D f₀ sc m s rs) (cenv : Nat) :
+    InAct m₁ s₁ rs₁ env vid D f₀ (sc + 1) m s.pushScope (Ref.newFrame rs cenv).2 := by
   obtain ⟨extra, hl, hlen⟩ := h.lin
   exact ⟨h.rel₁, h.good, h.cur, h.addr, h.susp, h.data,
     ⟨some s.scopes.length :: extra, by show some s.scopes.length :: s.linear = _; rw [hl]; rfl, by simp [hlen]⟩,
@@ -625,18 +625,18 @@ theorem isLazyVM_eq {fo : FnObj} (hu : fo.user = false) (j : Nat) : isLazyVM (so
   · have : fo.isLazyCallArg j = false := by simpa using hj
     rw [this, Bool.and_false]
 
-theorem simT_selfcall {k : Nat} (hV : TClaimV (k + 1)) (hA : FClaimA (k + 1)) (hU : FClaimU (k + 1)) (hG : FClaimG k)
+theorem simT_selfcall {k : Nat} (hV : TClaimV (k + 1)) (hA : FClaimA (k + 1)) (hU : FClaimU (k + 1)) (hG : ∀ name, hoB name → FClaimH k name)
     {self h : String} {args : List Expr} (hh : (h != "") = true) (hhead : okHead h = true) (hfa : FaList args = true)
     (hself : (h != self) = true ∨ FfList false self args = true)
     (isFn : Nat → Bool) (c : Ctx) (gs : GS) (r : (List Instr × Bool) × GS)
     (hc : (compile isFn c (.call (.sym h) args)).run gs = .ok r) (hfn : FnameOk self c)
     {ps : List String} {rest : Option String} (hkn : KnownOk c gs ps rest) (hps : ∀ p ∈ ps ++ rest.toList, okParam p = true)
-    {m₁ : Nat → Nat} {s₁ : St} {rs₁ : Ref.St} {env vid : Nat} {D : List (Option Val)} {m : Nat → Nat} {s : St} {rs : Ref.St}
+    {m₁ : Nat → Nat} {s₁ : St} {rs₁ : Ref.St} {env vid : Nat} {D : List (Option Val)} {f₀ : Nat} {m : Nat → Nat} {s : St} {rs : Ref.St}
     {cenv : Nat} {pre post : List Instr}
-    (hact : InAct m₁ s₁ rs₁ env vid D c.scopes m s rs) (hnargs : (fnOf s₁ vid).nargs = ps.length)
+    (hact : InAct m₁ s₁ rs₁ env vid D f₀ c.scopes m s rs) (hnargs : (fnOf s₁ vid).nargs = ps.length)
     (hva : (fnOf s₁ vid).varargs = rest.isSome) (hpa : (fnOf s₁ vid).params = ps ++ rest.toList)
     (hrel : RelF m s rs cenv) (hseg : Seg s pre r.1.1 post) :
-    SimT r.1.1 s₁ env D m s rs cenv (Ref.eval (k + 2) (.call (.sym h) args) cenv rs) := by
+    SimT r.1.1 s₁ env D f₀ m s rs cenv (Ref.eval (k + 2) (.call (.sym h) args) cenv rs) := by
   have hok : okSym h = true := okSym_of_okHead hhead
   rw [compile_call_eq] at hc
   by_cases hcond' : ¬ ((c.tail && h == c.funcname) = true ∧ arityOk (knownFn c gs h) args.length = true)
@@ -714,7 +714,7 @@ theorem simT_selfcall {k : Nat} (hV : TClaimV (k + 1)) (hA : FClaimA (k + 1)) (h
     rw [hl] at hlook'
     rw [← hlook']
     simp only [Option.map_some, trp2]
-    show SimT _ s₁ env D m s rs cenv (refCall k (.fn (m s.curfunc)) args cenv rs)
+    show SimT _ s₁ env D f₀ m s rs cenv (refCall k (.fn (m s.curfunc)) args cenv rs)
     rw [hact.cur, refCall_fn k (m vid) args cenv rs c0 hc1]
     -- the operands
     have hseg1 : Seg (s.jmp (s.pc + 1) s.data) (pre ++ [.tailGuard h (code.length + c.scopes + 4)]) code
@@ -805,8 +805,8 @@ theorem simT_selfcall {k : Nat} (hV : TClaimV (k + 1)) (hA : FClaimA (k + 1)) (h
       have hfo1' : ∀ id, fnOf s₁' id = fnOf s2 id := fun id => by subst hs1'; unfold fnOf; rw [hfns5]
       have hflags1' : ∀ i, isFnScope s₁' i = isFnScope s2 i := fun i => by
         subst hs1'; unfold isFnScope scopeOf; rw [hsc5]
-      have rel1' : RelF m2 s₁' rs2 env :=
-        hact.rel₁.back (s₅ := s₁') rel2 (by subst hs1'; exact hsc5) (by subst hs1'; exact hfns5) (by subst hs1'; exact hheap5)
+      have rel1' : RelF m2 (s₁'.withCur f₀) rs2 env :=
+        hact.rel₁.back (s₅ := s₁'.withCur f₀) rel2 (by subst hs1'; exact hsc5) (by subst hs1'; exact hfns5) (by subst hs1'; exact hheap5)
           (by subst hs1'; exact htr5) (by subst hs1'; exact hlin5) (by subst hs1'; rfl) hflags2 hfl2 hfo2 hext12.1 hle12
           (by subst hs1'; exact hloops5) (by subst hs1'; subst hs5; subst hs4; rfl)
       have hk1' : FnsKeep s₁ s₁' := FnsKeep.of_eq (by subst hs1'; rw [hfns5]; exact hfl2)
@@ -817,7 +817,7 @@ theorem simT_selfcall {k : Nat} (hV : TClaimV (k + 1)) (hA : FClaimA (k + 1)) (h
         ValIn.mono (hcl2 v hv) (fun id hgd => hgd.mono (FnsKeep.of_fns_eq (by subst hs1'; exact hfns5)
             (LoopsExt.of_eq (by subst hs1'; exact hloops5)))
           (by subst hs1'; rw [hsc5]; exact Nat.le_refl _) (fun i _ => hflags1' i) (RExt.refl _) rfl)
-      have hres := hU m2 s₁' rs2 env vid c0 vs D rel1' good1'
+      have hres := hU m2 s₁' rs2 env vid c0 vs D f₀ rel1' good1'
         (by rw [hm12, ← hact.mext vid hact.good.lt]; exact ext2.2 _ _ hc1) (by subst hs1'; rfl) hvok har0
       rw [hent, hm12, ← hact.mext vid hact.good.lt, ← hvs2] at hres
       have hreach5 : ReachX s s5 := (((r0.trans r2).trans r3).trans r4').trans r5
@@ -886,47 +886,47 @@ theorem simF_stmt {n : Nat} (hFE : FClaimE n) (hXE : XClaimE n) {ex : Bool} {sel
 def TClaimE (n : Nat) : Prop :=
   ∀ ex self e, Fz ex self e = true → ∀ isFn c gs r, (compile isFn c e).run gs = .ok r → FnameOk self c →
   (ex = true → gs.loopstack = []) → ∀ ps rest, KnownOk c gs ps rest → (∀ p ∈ ps ++ rest.toList, okParam p = true) →
-  ∀ m₁ s₁ rs₁ env vid D m s rs cenv pre post, InAct m₁ s₁ rs₁ env vid D c.scopes m s rs → (fnOf s₁ vid).nargs = ps.length →
+  ∀ m₁ s₁ rs₁ env vid D f₀ m s rs cenv pre post, InAct m₁ s₁ rs₁ env vid D f₀ c.scopes m s rs → (fnOf s₁ vid).nargs = ps.length →
     ((fnOf s₁ vid).varargs = rest.isSome ∧ (fnOf s₁ vid).params = ps ++ rest.toList) →
     RelF m s rs cenv → GenOk gs r.2 s → LsOut pre gs.loops.length r.2.loops.length → Seg s pre r.1.1 post →
-    SimT r.1.1 s₁ env D m s rs cenv (Ref.eval n e cenv rs)
+    SimT r.1.1 s₁ env D f₀ m s rs cenv (Ref.eval n e cenv rs)
 
 def TClaimB (n : Nat) : Prop :=
   ∀ ex self es, es ≠ [] → FzList ex self es = true → ∀ isFn c gs r, (compileBegin isFn c es).run gs = .ok r → FnameOk self c →
   (ex = true → gs.loopstack = []) → ∀ ps rest, KnownOk c gs ps rest → (∀ p ∈ ps ++ rest.toList, okParam p = true) →
-  ∀ m₁ s₁ rs₁ env vid D m s rs cenv pre post, InAct m₁ s₁ rs₁ env vid D c.scopes m s rs → (fnOf s₁ vid).nargs = ps.length →
+  ∀ m₁ s₁ rs₁ env vid D f₀ m s rs cenv pre post, InAct m₁ s₁ rs₁ env vid D f₀ c.scopes m s rs → (fnOf s₁ vid).nargs = ps.length →
     ((fnOf s₁ vid).varargs = rest.isSome ∧ (fnOf s₁ vid).params = ps ++ rest.toList) →
     RelF m s rs cenv → GenOk gs r.2 s → LsOut pre gs.loops.length r.2.loops.length → Seg s pre r.1.1 post →
-    SimT r.1.1 s₁ env D m s rs cenv (Ref.evalBegin n es cenv rs)
+    SimT r.1.1 s₁ env D f₀ m s rs cenv (Ref.evalBegin n es cenv rs)
 
 def TClaimN (n : Nat) : Prop :=
   ∀ ex self es, es ≠ [] → FzList ex self es = true → ∀ isFn c oldtail gs r, (compileNewScope isFn c oldtail es).run gs = .ok r →
   FnameOk self c → (ex = true → gs.loopstack = []) → ∀ ps rest, KnownOk c gs ps rest → (∀ p ∈ ps ++ rest.toList, okParam p = true) →
-  ∀ m₁ s₁ rs₁ env vid D m s rs cenv pre post, InAct m₁ s₁ rs₁ env vid D c.scopes m s rs → (fnOf s₁ vid).nargs = ps.length →
+  ∀ m₁ s₁ rs₁ env vid D f₀ m s rs cenv pre post, InAct m₁ s₁ rs₁ env vid D f₀ c.scopes m s rs → (fnOf s₁ vid).nargs = ps.length →
     ((fnOf s₁ vid).varargs = rest.isSome ∧ (fnOf s₁ vid).params = ps ++ rest.toList) →
     RelF m s rs cenv → GenOk gs r.2 s → LsOut pre gs.loops.length r.2.loops.length → Seg s pre r.1.1 post →
-    SimT r.1.1 s₁ env D m s rs cenv (Ref.evalBegin n es cenv rs)
+    SimT r.1.1 s₁ env D f₀ m s rs cenv (Ref.evalBegin n es cenv rs)
 
 def TClaimC (n : Nat) : Prop :=
   ∀ ex self arms d, FzArms ex self arms = true → Fz ex self d = true → ∀ isFn c gs r gs0 rd,
     (compileArms isFn c arms).run gs = .ok r → (compile isFn c d).run gs0 = .ok rd → FnameOk self c →
   (ex = true → gs.loopstack = []) → (ex = true → gs0.loopstack = []) →
   ∀ ps rest, KnownOk c gs ps rest → KnownOk c gs0 ps rest → (∀ p ∈ ps ++ rest.toList, okParam p = true) →
-  ∀ m₁ s₁ rs₁ env vid D m s rs cenv pre post, InAct m₁ s₁ rs₁ env vid D c.scopes m s rs → (fnOf s₁ vid).nargs = ps.length →
+  ∀ m₁ s₁ rs₁ env vid D f₀ m s rs cenv pre post, InAct m₁ s₁ rs₁ env vid D f₀ c.scopes m s rs → (fnOf s₁ vid).nargs = ps.length →
     ((fnOf s₁ vid).varargs = rest.isSome ∧ (fnOf s₁ vid).params = ps ++ rest.toList) →
     RelF m s rs cenv → GenOk gs r.2 s → GenOk gs0 rd.2 s →
     LsOut pre gs.loops.length r.2.loops.length → LsOut pre gs0.loops.length rd.2.loops.length →
     rd.2.loops.length ≤ gs.loops.length → Seg s pre (asmCond r.1 rd.1.1) post →
-    SimT (asmCond r.1 rd.1.1) s₁ env D m s rs cenv (Ref.evalCond n arms d cenv rs)
+    SimT (asmCond r.1 rd.1.1) s₁ env D f₀ m s rs cenv (Ref.evalCond n arms d cenv rs)
 
 theorem tclaimB_succ {n : Nat} (hFE : FClaimE n) (hXE : XClaimE n) (hE : TClaimE n) (hB : TClaimB n) : TClaimB (n + 1) := by
-  intro ex self es hne hes isFn c gs r hc hfn hex ps rest hkn hps m₁ s₁ rs₁ env vid D m s rs cenv pre post hact hna hva hrel hgen hlo hseg
+  intro ex self es hne hes isFn c gs r hc hfn hex ps rest hkn hps m₁ s₁ rs₁ env vid D f₀ m s rs cenv pre post hact hna hva hrel hgen hlo hseg
   match es, hne with
   | [e], _ =>
     rw [FzList] at hes
     rw [compileBegin] at hc
     rw [Ref.evalBegin]
-    exact hE ex self e hes isFn c gs r hc hfn hex ps rest hkn hps m₁ s₁ rs₁ env vid D m s rs cenv pre post hact hna hva hrel hgen hlo hseg
+    exact hE ex self e hes isFn c gs r hc hfn hex ps rest hkn hps m₁ s₁ rs₁ env vid D f₀ m s rs cenv pre post hact hna hva hrel hgen hlo hseg
   | e :: e' :: es', _ =>
     rw [FzList] at hes
     simp only [Bool.and_eq_true] at hes
@@ -949,7 +949,7 @@ theorem tclaimB_succ {n : Nat} (hFE : FClaimE n) (hXE : XClaimE n) (hE : TClaimE
           obtain ⟨r2, m2⟩ := glue_pop hseg l1
           have hfr := fr1.trans (FrameF.jmp s1 (s1.pc + 1) s.data)
           have ih2 := hB ex self (e' :: es') (by simp) hes.2 isFn c gs1 (rb, gs2) hb hfn hex1 ps rest (hkn.keep tot1.1 rfl rfl) hps
-            m₁ s₁ rs₁ env vid D m1 (s1.jmp (s1.pc + 1) s.data) rs1 cenv _ post (hact.moved m2 hfr hm1 ext1) hna hva (rel1.jmp _ _)
+            m₁ s₁ rs₁ env vid D f₀ m1 (s1.jmp (s1.pc + 1) s.data) rs1 cenv _ post (hact.moved m2 hfr hm1 ext1) hna hva (rel1.jmp _ _)
             ((hgen.rest tot1.1).frame hfr.toFrame)
             ((hlo.mono tot1.2.1 (Nat.le_refl _)).app ((tot1.2.2.below (Nat.le_refl _)).app (lsOut_pop _ _)))
             (hseg.moved m2 (c₁ := ra.1 ++ [.pop]) (c₂ := rb.1) (post' := post) rfl (by simp))
@@ -962,14 +962,14 @@ theorem tclaimB_succ {n : Nat} (hFE : FClaimE n) (hXE : XClaimE n) (hE : TClaimE
     · intro hh; cases hh
 
 theorem tclaimN_succ {n : Nat} (hFE : FClaimE n) (hXE : XClaimE n) (hE : TClaimE n) (hN : TClaimN n) : TClaimN (n + 1) := by
-  intro ex self es hne hes isFn c oldtail gs r hc hfn hex ps rest hkn hps m₁ s₁ rs₁ env vid D m s rs cenv pre post hact hna hva hrel hgen
+  intro ex self es hne hes isFn c oldtail gs r hc hfn hex ps rest hkn hps m₁ s₁ rs₁ env vid D f₀ m s rs cenv pre post hact hna hva hrel hgen
     hlo hseg
   match es, hne with
   | [e], _ =>
     rw [FzList] at hes
     rw [compileNewScope] at hc
     rw [Ref.evalBegin]
-    exact hE ex self e hes isFn _ gs r hc hfn hex ps rest (hkn.keep (KeepFns.refl _) rfl rfl) hps m₁ s₁ rs₁ env vid D m s rs cenv
+    exact hE ex self e hes isFn _ gs r hc hfn hex ps rest (hkn.keep (KeepFns.refl _) rfl rfl) hps m₁ s₁ rs₁ env vid D f₀ m s rs cenv
       pre post hact hna hva hrel hgen hlo hseg
   | e :: e' :: es', _ =>
     rw [FzList] at hes
@@ -992,7 +992,7 @@ theorem tclaimN_succ {n : Nat} (hFE : FClaimE n) (hXE : XClaimE n) (hE : TClaimE
           obtain ⟨r2, m2⟩ := glue_pop hseg l1
           have hfr := fr1.trans (FrameF.jmp s1 (s1.pc + 1) s.data)
           have ih2 := hN ex self (e' :: es') (by simp) hes.2 isFn c oldtail gs1 (rb, gs2) hb hfn hex1 ps rest (hkn.keep tot1.1 rfl rfl)
-            hps m₁ s₁ rs₁ env vid D m1 (s1.jmp (s1.pc + 1) s.data) rs1 cenv _ post (hact.moved m2 hfr hm1 ext1) hna hva
+            hps m₁ s₁ rs₁ env vid D f₀ m1 (s1.jmp (s1.pc + 1) s.data) rs1 cenv _ post (hact.moved m2 hfr hm1 ext1) hna hva
             (rel1.jmp _ _) ((hgen.rest tot1.1).frame hfr.toFrame)
             ((hlo.mono tot1.2.1 (Nat.le_refl _)).app ((tot1.2.2.below (Nat.le_refl _)).app (lsOut_pop _ _)))
             (hseg.moved m2 (c₁ := ra.1 ++ [.pop]) (c₂ := rb.1) (post' := post) rfl (by simp))
@@ -1005,14 +1005,14 @@ theorem tclaimN_succ {n : Nat} (hFE : FClaimE n) (hXE : XClaimE n) (hE : TClaimE
     · intro hh; cases hh
 
 theorem tclaimC_succ {n : Nat} (hFE : FClaimE n) (hE : TClaimE n) (hC : TClaimC n) : TClaimC (n + 1) := by
-  intro ex self arms d harms hd isFn c gs r gs0 rd hc hcd hfn hex hex0 ps rest hkn hkn0 hps m₁ s₁ rs₁ env vid D m s rs cenv pre post
+  intro ex self arms d harms hd isFn c gs r gs0 rd hc hcd hfn hex hex0 ps rest hkn hkn0 hps m₁ s₁ rs₁ env vid D f₀ m s rs cenv pre post
     hact hna hva hrel hgen hgend hlo hlod hdl hseg
   match arms with
   | [] =>
     rw [compileArms] at hc; simp only [g_pure_ok] at hc; subst hc
     rw [Ref.evalCond]
     simp only [asmCond] at hseg ⊢
-    exact hE ex self d hd isFn c gs0 rd hcd hfn hex0 ps rest hkn0 hps m₁ s₁ rs₁ env vid D m s rs cenv pre post hact hna hva hrel hgend
+    exact hE ex self d hd isFn c gs0 rd hcd hfn hex0 ps rest hkn0 hps m₁ s₁ rs₁ env vid D f₀ m s rs cenv pre post hact hna hva hrel hgend
       hlod hseg
   | (p, b) :: arms' =>
     rw [FzArms] at harms
@@ -1045,7 +1045,7 @@ theorem tclaimC_succ {n : Nat} (hFE : FClaimE n) (hE : TClaimE n) (hC : TClaimC 
         obtain ⟨r2, m2⟩ := glue_brn_fall hseg l1 ht
         have hfr := fr1.trans (FrameF.jmp s1 (s1.pc + 1) s.data)
         have ih2 := hE ex self b harms.1.2 isFn c gs2 (rb, gs3) hb hfn hex2 ps rest (hkn.keep (totr.1.trans totp.1) rfl rfl) hps
-          m₁ s₁ rs₁ env vid D m1 (s1.jmp (s1.pc + 1) s.data) rs1 cenv _ _ (hact.moved m2 hfr hm1 ext1) hna hva (rel1.jmp _ _)
+          m₁ s₁ rs₁ env vid D f₀ m1 (s1.jmp (s1.pc + 1) s.data) rs1 cenv _ _ (hact.moved m2 hfr hm1 ext1) hna hva (rel1.jmp _ _)
           ((hgen.rest (totr.1.trans totp.1)).frame hfr.toFrame)
           ((hlo.mono (Nat.le_trans l01 l12) (Nat.le_refl _)).app
             ((totp.2.2.below (Nat.le_refl _)).app (lsOut_one (.branch false (rb.1.length + 2)) _ _)))
@@ -1058,7 +1058,7 @@ theorem tclaimC_succ {n : Nat} (hFE : FClaimE n) (hE : TClaimE n) (hC : TClaimC 
         have hfr := fr1.trans (FrameF.jmp s1 (s1.pc + ((rb.1.length : Int) + 2)) s.data)
         have hk13 := totp.1.trans totb.1
         have ih2 := hC ex self arms' d harms.2 hd isFn c gs (restA, gs1) gs0 rd hrest hcd hfn hex hex0 ps rest hkn hkn0 hps
-          m₁ s₁ rs₁ env vid D m1 (s1.jmp (s1.pc + ((rb.1.length : Int) + 2)) s.data) rs1 cenv _ post
+          m₁ s₁ rs₁ env vid D f₀ m1 (s1.jmp (s1.pc + ((rb.1.length : Int) + 2)) s.data) rs1 cenv _ post
           (hact.moved m2 hfr hm1 ext1) hna hva (rel1.jmp _ _)
           ((hgen.first hk13).frame hfr.toFrame) (hgend.frame hfr.toFrame)
           ((hlo.mono (Nat.le_refl _) (Nat.le_trans l12 l23)).app
@@ -1079,10 +1079,10 @@ theorem tclaimC_succ {n : Nat} (hFE : FClaimE n) (hE : TClaimE n) (hC : TClaimC 
     | cont l rs1 => rw [h1] at ih; exact ih.elim
 
 theorem tclaimE_succ {n : Nat} (hFE1 : FClaimE (n + 1)) (hXE1 : XClaimE (n + 1)) (hV : TClaimV n) (hA : FClaimA n)
-    (hU : FClaimU n) (hG : ∀ k, n = k + 1 → FClaimG k) (hL : FClaimL n) (hP : FClaimP n) (hB : TClaimB n) (hC : TClaimC n)
+    (hU : FClaimU n) (hG : ∀ k, n = k + 1 → ∀ name, hoB name → FClaimH k name) (hL : FClaimL n) (hP : FClaimP n) (hB : TClaimB n) (hC : TClaimC n)
     (hN : TClaimN n) : TClaimE (n + 1) := by
-  intro ex self e he isFn c gs r hc hfn hex ps rest hkn hps m₁ s₁ rs₁ env vid D m s rs cenv pre post hact hna hva hrel hgen hlo hseg
-  have hff : Ff true self e = true → SimT r.1.1 s₁ env D m s rs cenv (Ref.eval (n + 1) e cenv rs) := fun h =>
+  intro ex self e he isFn c gs r hc hfn hex ps rest hkn hps m₁ s₁ rs₁ env vid D f₀ m s rs cenv pre post hact hna hva hrel hgen hlo hseg
+  have hff : Ff true self e = true → SimT r.1.1 s₁ env D f₀ m s rs cenv (Ref.eval (n + 1) e cenv rs) := fun h =>
     (hFE1 true self e h isFn c gs r hc hfn m s rs cenv pre post hrel (fun _ => hgen) hseg).toT
   cases e with
   | call f args =>
@@ -1102,7 +1102,7 @@ theorem tclaimE_succ {n : Nat} (hFE1 : FClaimE (n + 1)) (hXE1 : XClaimE (n + 1))
     | cons e0 es0 =>
       rw [compile] at hc
       · rw [Ref.eval]
-        exact hB ex self (e0 :: es0) (by simp) he isFn c gs r hc hfn hex ps rest hkn hps m₁ s₁ rs₁ env vid D m s rs cenv pre post
+        exact hB ex self (e0 :: es0) (by simp) he isFn c gs r hc hfn hex ps rest hkn hps m₁ s₁ rs₁ env vid D f₀ m s rs cenv pre post
           hact hna hva hrel hgen hlo hseg
       · intro hh; cases hh
   | cond arms d =>
@@ -1116,7 +1116,7 @@ theorem tclaimE_succ {n : Nat} (hFE1 : FClaimE (n + 1)) (hXE1 : XClaimE (n + 1))
     have tota := compileArms_tot_Fz he.1 hfn hex1 has
     rw [Ref.eval]
     exact hC ex self arms d he.1 he.2 isFn c gs1 (as, gs2) gs (rd, gs1) has hd hfn hex1 hex ps rest (hkn.keep totd.1 rfl rfl) hkn hps
-      m₁ s₁ rs₁ env vid D m s rs cenv pre post hact hna hva hrel (hgen.rest totd.1) (hgen.first tota.1)
+      m₁ s₁ rs₁ env vid D f₀ m s rs cenv pre post hact hna hva hrel (hgen.rest totd.1) (hgen.first tota.1)
       (hlo.mono totd.2.1 (Nat.le_refl _)) (hlo.mono (Nat.le_refl _) tota.2.1) (Nat.le_refl _) hseg
   | newScope es =>
     rw [Fz] at he
@@ -1128,9 +1128,9 @@ theorem tclaimE_succ {n : Nat} (hFE1 : FClaimE (n + 1)) (hXE1 : XClaimE (n + 1))
       · simp only [g_bind_ok, g_pure_ok] at hc
         obtain ⟨ra, gs1, ha, rfl⟩ := hc
         rw [Ref.eval]
-        show SimT _ s₁ env D m s rs cenv (Ref.evalBegin n (e0 :: es0) rs.frames.length (Ref.newFrame rs cenv).2)
+        show SimT _ s₁ env D f₀ m s rs cenv (Ref.evalBegin n (e0 :: es0) rs.frames.length (Ref.newFrame rs cenv).2)
         exact SimT.scoped hseg hrel (hN ex self (e0 :: es0) he.1 he.2 isFn _ _ gs (ra, gs1) ha hfn hex ps rest
-          (hkn.keep (KeepFns.refl _) rfl rfl) hps m₁ s₁ rs₁ env vid D m _ _ _ _ _ (hact.pushScope cenv) hna hva
+          (hkn.keep (KeepFns.refl _) rfl rfl) hps m₁ s₁ rs₁ env vid D f₀ m _ _ _ _ _ (hact.pushScope cenv) hna hva
           hrel.pushScope (hgen.mono (FnsKeep.of_fns_eq rfl)) (hlo.app (lsOut_one .addScope _ _)) hseg.inner)
       · intro hh; cases hh
   | let_ seq bs body =>
@@ -1155,7 +1155,7 @@ theorem tclaimE_succ {n : Nat} (hFE1 : FClaimE (n + 1)) (hXE1 : XClaimE (n + 1))
         simp
       simp only [Bool.false_eq_true, hcode] at hseg hgen hlo ⊢
       rw [Ref.eval]
-      show SimT _ s₁ env D m s rs cenv (if false = true then _ else
+      show SimT _ s₁ env D f₀ m s rs cenv (if false = true then _ else
           (match Ref.evalList n (bs.map (·.2)) rs.frames.length (Ref.newFrame rs cenv).2 with
            | .ok vs s => (match Ref.bindAll s rs.frames.length (bs.map (·.1)) vs with
               | some s => Ref.evalBegin n body rs.frames.length s
@@ -1178,7 +1178,7 @@ theorem tclaimE_succ {n : Nat} (hFE1 : FClaimE (n + 1)) (hXE1 : XClaimE (n + 1))
           obtain ⟨s2, m2, r2, mv2, rel2, hm2, ext2, fr2⟩ := hUb
           simp only
           have ihb := hB ex self body hbody hbl isFn _ gs1 (rb, gs2) hb hfn'' hex1 ps rest (hkn.keep hk1.1 rfl rfl) hps
-            m₁ s₁ rs₁ env vid D m2 s2 rs3 _ _ _ ((hact.pushScope cenv).moved mv2 fr2 hm2 ext2) hna hva rel2
+            m₁ s₁ rs₁ env vid D f₀ m2 s2 rs3 _ _ _ ((hact.pushScope cenv).moved mv2 fr2 hm2 ext2) hna hva rel2
             (((hgen.rest hk1.1).mono (s' := s.pushScope) (FnsKeep.of_fns_eq rfl)).frame fr2.toFrame)
             (((hlo.mono hl1.1 (Nat.le_refl _)).app (lsOut_one .addScope _ _)).app
               (LsOut.app (hl1.2.below (Nat.le_refl _))
@@ -1196,7 +1196,7 @@ theorem tclaimE_succ {n : Nat} (hFE1 : FClaimE (n + 1)) (hXE1 : XClaimE (n + 1))
           ++ rb.1 ++ [Instr.removeScope]) = [Instr.addScope] ++ (ra.1 ++ rb.1) ++ [Instr.removeScope] := by simp
       simp only [hcode] at hseg hgen hlo ⊢
       rw [Ref.eval]
-      show SimT _ s₁ env D m s rs cenv (if true = true then
+      show SimT _ s₁ env D f₀ m s rs cenv (if true = true then
           (match Ref.evalLetSeq n bs rs.frames.length (Ref.newFrame rs cenv).2 with
            | .ok _ s => Ref.evalBegin n body rs.frames.length s
            | .err s => .err s | .brk l s => .brk l s | .cont l s => .cont l s | .timeout => .timeout)
@@ -1212,7 +1212,7 @@ theorem tclaimE_succ {n : Nat} (hFE1 : FClaimE (n + 1)) (hXE1 : XClaimE (n + 1))
         rw [h1] at hUl
         obtain ⟨s2, m2, r2, mv2, rel2, hm2, ext2, fr2⟩ := hUl
         have ihb := hB ex self body hbody hbl isFn _ gs1 (rb, gs2) hb hfn'' hex1 ps rest (hkn.keep hk1.1 rfl rfl) hps
-          m₁ s₁ rs₁ env vid D m2 s2 rs2 _ _ _ ((hact.pushScope cenv).moved mv2 fr2 hm2 ext2) hna hva rel2
+          m₁ s₁ rs₁ env vid D f₀ m2 s2 rs2 _ _ _ ((hact.pushScope cenv).moved mv2 fr2 hm2 ext2) hna hva rel2
           (((hgen.rest hk1.1).mono (s' := s.pushScope) (FnsKeep.of_fns_eq rfl)).frame fr2.toFrame)
           (((hlo.mono hl1.1 (Nat.le_refl _)).app (lsOut_one .addScope _ _)).app (hl1.2.below (Nat.le_refl _)))
           (hseg1.moved mv2 (c₁ := ra.1) (c₂ := rb.1) (post' := [.removeScope] ++ post) (by simp) rfl)
@@ -1245,15 +1245,15 @@ theorem tclaims_zero : TClaimV 0 ∧ TClaimE 0 ∧ TClaimB 0 ∧ TClaimC 0 ∧ T
   refine ⟨?_, ?_, ?_, ?_, ?_⟩
   · intro self args hargs hfa isFn c f i gs r hc hfn lazyAt hlz m s rs env pre post hrel hseg
     rw [Ref.evalArgs]; trivial
-  · intro ex self e he isFn c gs r hc hfn hex ps rest hkn hps m₁ s₁ rs₁ env vid D m s rs cenv pre post hact hna hva hrel hgen hlo hseg
+  · intro ex self e he isFn c gs r hc hfn hex ps rest hkn hps m₁ s₁ rs₁ env vid D f₀ m s rs cenv pre post hact hna hva hrel hgen hlo hseg
     rw [Ref.eval]; trivial
-  · intro ex self es hne hes isFn c gs r hc hfn hex ps rest hkn hps m₁ s₁ rs₁ env vid D m s rs cenv pre post hact hna hva hrel hgen hlo
+  · intro ex self es hne hes isFn c gs r hc hfn hex ps rest hkn hps m₁ s₁ rs₁ env vid D f₀ m s rs cenv pre post hact hna hva hrel hgen hlo
       hseg
     rw [Ref.evalBegin]; trivial
-  · intro ex self arms d harms hd isFn c gs r gs0 rd hc hcd hfn hex hex0 ps rest hkn hkn0 hps m₁ s₁ rs₁ env vid D m s rs cenv pre post
+  · intro ex self arms d harms hd isFn c gs r gs0 rd hc hcd hfn hex hex0 ps rest hkn hkn0 hps m₁ s₁ rs₁ env vid D f₀ m s rs cenv pre post
       hact hna hva hrel hgen hgend hlo hlod hdl hseg
     rw [Ref.evalCond]; trivial
-  · intro ex self es hne hes isFn c oldtail gs r hc hfn hex ps rest hkn hps m₁ s₁ rs₁ env vid D m s rs cenv pre post hact hna hva hrel
+  · intro ex self es hne hes isFn c oldtail gs r hc hfn hex ps rest hkn hps m₁ s₁ rs₁ env vid D f₀ m s rs cenv pre post hact hna hva hrel
       hgen hlo hseg
     rw [Ref.evalBegin]; trivial
 
@@ -1264,7 +1264,7 @@ theorem vOk_mkList {m : Nat → Nat} {s : St} {rs : Ref.St} : ∀ (xs : List Val
   | x :: xs, h => valIn_pair (h x (List.mem_cons_self ..)) (vOk_mkList xs (fun w hw => h w (List.mem_cons_of_mem _ hw)))
 
 theorem fclaimU_succ {n : Nat} (hB : TClaimB n) : FClaimU (n + 1) := by
-  intro m s₁ rs₁ env vid c' vs₀ D hrel hg hcc hd₀ hvs₀ har
+  intro m s₁ rs₁ env vid c' vs₀ D f₀ hrel hg hcc hd₀ hvs₀ har
   obtain ⟨c, hc1, hrest, hnd, hokp, hbody, hparams, hnargs, hvar, huser, hel, _,
     t, b, tl, isFn, cb, gs0, gs1, self, hcode, htlt, htclo, hcomp, hsc0, hfname, ⟨ex, hff, hexg⟩, hgen, hkn⟩ := hg.clo
   have hcc' : c' = c := by rw [hcc] at hc1; injection hc1
@@ -1358,8 +1358,12 @@ theorem fclaimU_succ {n : Nat} (hB : TClaimB n) : FClaimU (n + 1) := by
   have hndz : ((F.zip vs).map (·.1)).Nodup := by rw [hzl]; exact hnd
   have hndz' : ((F.zip (vs.map (trf m))).map (·.1)).Nodup := by
     rw [List.map_fst_zip (by simp; omega)]; exact hnd
+  have hgW : GoodFn m (s₁.withCur f₀) rs₁ vid :=
+    hg.mono (FnsKeep.of_fns_eq rfl) (Nat.le_refl _) (fun _ _ => rfl) (RExt.refl _) rfl
+  have hvsW : ∀ w ∈ vs, VOk m (s₁.withCur f₀) rs₁ w := fun w hw =>
+    ValIn.mono (hvs w hw) (fun id hgd => hgd.mono (FnsKeep.of_fns_eq rfl) (Nat.le_refl _) (fun _ _ => rfl) (RExt.refl _) rfl)
   have relB : RelF m s₄ rsB rs₁.frames.length := by
-    refine hrel.enter hg (fun c' hc' => by rw [hc1] at hc'; injection hc' with hc'; rw [hc']) s₄ rsB t _ _ hsc4 hlin4 hfns4 hcur4 (by subst hs4; subst hs3; rfl) (by subst hs4; subst hs3; rfl)
+    refine hrel.enter hgW (fun c' hc' => by rw [hc1] at hc'; injection hc' with hc'; rw [hc']) s₄ rsB t _ _ hsc4 hlin4 hfns4 hcur4 (by subst hs4; subst hs3; rfl) (by subst hs4; subst hs3; rfl)
       hfrB hclB hhpB htrB htclo (fun y => ?_) (fun y v hv => ?_) (fun h hh => ?_) hloops4
       (by subst hs4; subst hs3; rfl) (by rw [hfold])
     · rw [lookup_bindsVars, lookup_bindsVars, List.reverse_reverse, lookup_reverse_of_nodup _ hndz', lookup_zip_map]
@@ -1367,7 +1371,7 @@ theorem fclaimU_succ {n : Nat} (hB : TClaimB n) : FClaimU (n + 1) := by
     · rw [lookup_bindsVars, List.reverse_reverse] at hv
       cases hz : (F.zip vs).lookup y with
       | none => rw [hz] at hv; cases hv
-      | some w => rw [hz] at hv; injection hv with hv; subst hv; exact hvs w (lookup_zip_mem hz).2
+      | some w => rw [hz] at hv; injection hv with hv; subst hv; exact hvsW w (lookup_zip_mem hz).2
     · rw [lookup_bindsVars, lookup_reverse_of_nodup _ hndz', lookup_zip_none]
       · rfl
       · intro hm
@@ -1384,13 +1388,13 @@ theorem fclaimU_succ {n : Nat} (hB : TClaimB n) : FClaimU (n + 1) := by
   have hscl14 : s₁.scopes.length ≤ s₄.scopes.length := by rw [hsc4]; simp
   have hext1B : FramesExt rs₁ rsB := fun i fr hf =>
     ⟨fr, by rw [hfrB, List.getElem?_append_left (lt_of_getElem?_some hf)]; exact hf, rfl⟩
-  have hact : InAct m s₁ rs₁ env vid D cb.scopes m s₄ rsB :=
+  have hact : InAct m s₁ rs₁ env vid D f₀ cb.scopes m s₄ rsB :=
     ⟨hrel, hg, hcur4, haddr4, hsusp4, hd4, ⟨[], by rw [hlin4]; rfl, by rw [hsc0]; rfl⟩, by rw [hfns4]; exact Nat.le_refl _,
       fun id _ => by unfold fnOf; rw [hfns4], by rw [hloops4]; exact Nat.le_refl _, fun id _ => by rw [hloops4], hscl14, hfl14,
       MExt.refl _ _, ⟨hext1B, fun i c' hc' => by rw [hclB]; exact hc'⟩⟩
   have hlo4 : LsOut ([.addFuncScope t] ++ (F.map Instr.popStackPutEnv).reverse) gs0.loops.length gs1.loops.length :=
     fun l hl => by simp at hl
-  have hsim := hB ex self c'.body hbody hff isFn cb gs0 ((b, tl), gs1) hcomp hfname hexg c'.ps c'.rest hkn (hFe ▸ hokF) m s₁ rs₁ env vid D m s₄ rsB
+  have hsim := hB ex self c'.body hbody hff isFn cb gs0 ((b, tl), gs1) hcomp hfname hexg c'.ps c'.rest hkn (hFe ▸ hokF) m s₁ rs₁ env vid D f₀ m s₄ rsB
     rs₁.frames.length _ _ hact hnargs ⟨hvar, by rw [hFe]; exact hparams⟩ relB (hgen.mono (FnsKeep.of_fns_eq hfns4 (LoopsExt.of_eq hloops4))) hlo4 hseg4
   have hreach4 : ReachX ((enteredA s₁ vid c'.rest c'.ps.length vs₀ D)) s₄ := r2.trans r4
   cases hres : Ref.evalBegin n c'.body rs₁.frames.length rsB with
@@ -1434,7 +1438,8 @@ theorem fclaimU_succ {n : Nat} (hB : TClaimB n) : FClaimU (n + 1) := by
       ((hreach4.trans r5).trans r6).trans r7, rfl, by show s₅.data = _; rw [l5.data, hd4], hv5, ?_,
       fun id hid => hm5 id (by rw [hfns4]; exact hid), hrext, ?_, ?_⟩
     · exact hrel.back rel5 rfl rfl rfl rfl rfl rfl hflags hfl hfo hrext.1
-        ⟨by rw [← hloops4]; exact fr5.loopsLen, fun id hid => by rw [← hloops4]; exact fr5.loops id (by rw [hloops4]; exact hid)⟩
+        ⟨by show s₁.loops.length ≤ s₅.loops.length; rw [← hloops4]; exact fr5.loopsLen,
+          fun id hid => by show s₅.loops.getD id {} = s₁.loops.getD id {}; rw [← hloops4]; exact fr5.loops id (by rw [hloops4]; exact hid)⟩
     · exact ⟨⟨rfl, rfl, rfl, by show s₅.suspended = _; rw [fr5.susp, hsusp4], hfl, hfo,
         by show s₁.loops.length ≤ s₅.loops.length; rw [← hloops4]; exact fr5.loopsLen,
         fun id hid => by show s₅.loops.getD id {} = _; rw [← hloops4]; exact fr5.loops id (by rw [hloops4]; exact hid)⟩,
